@@ -478,6 +478,17 @@ func (c *ctx) compileGate() {
 			if call, ok := b.X.(*ast.CallExpr); ok && astx.IsBuiltin(info3, call, "len") {
 				if se, ok := call.Args[0].(*ast.SelectorExpr); ok && se.Sel.Name == "errors" {
 					noErrs = true
+					// the cycle error is recorded among the diagnostics and this guard, which comes after the cycle
+					// check, returns for any diagnostic: scheduling is behind the cycle check as well
+					if cyc := pos["validateFlowCycles"]; cyc != nil && cd.At != nil && cd.At.Pos() > cyc.Pos() {
+						if is, ok := fc3.par.Enclosing(cyc, func(n ast.Node) bool { _, ok := n.(*ast.IfStmt); return ok }).(*ast.IfStmt); ok && is.Init != nil && fc3.par.Within(cyc, is.Init) {
+							astx.Writes(is.Body, func(l ast.Expr, at ast.Node) {
+								if _, f, ok := astx.FieldSel(info3, l); ok && f.Name() == "errors" {
+									noCycle = true
+								}
+							})
+						}
+					}
 				}
 			}
 		}
